@@ -482,6 +482,11 @@ own_type!(#[repr(C)] Own24b, id: u64, tok: u64, pad: u64 = 0x5a5a_5a5a_5a5a_5a5a
 // bigger than 16 bytes with a size that is not a multiple of 8 (word-wise copies lose the tail)
 own_type!(#[repr(C)] Own20, id: u32, tok: u32, pad: [u32; 3] = [0x5a5a_5a5a; 3]);
 own_type!(#[repr(C)] Own33, id: u8, tok: u8, pad: [u8; 31] = [0x5a; 31]);
+// large alignments and the sizes next to them (packed layout keys collide there)
+own_type!(#[repr(C, align(32))] Own32a, id: u32, tok: u32);
+own_type!(#[repr(C)] Own32u, id: u8, tok: u8, pad: [u8; 30] = [0x5a; 30]);
+own_type!(#[repr(C, align(256))] Own256a, id: u32, tok: u32);
+own_type!(#[repr(C)] Own257, id: u8, tok: u8, pad: [u8; 255] = [0x5a; 255]);
 own_type!(#[repr(C, align(16))] Own16a, id: u32, tok: u32);
 own_type!(#[repr(C, align(16))] Own16b, id: u32, tok: u32);
 own_type!(#[repr(C)] Big72, id: u32, tok: u32, pad: [u64; 8] = [0x5a5a_5a5a_5a5a_5a5a; 8]);
